@@ -373,7 +373,7 @@ def scan_assumptions(contract_files: list[str]) -> dict:
     every may_raise clause, every A_ (assumed ghost-definition) clause and every assume(...) in a
     lemma - so that no assumption is left out of the evidence by oversight."""
     import ast
-    out = {"trusted_contracts": [], "interface_contracts": [], "may_raise": [], "assumed_clauses": [], "assume_calls": []}
+    out = {"trusted_contracts": [], "interface_contracts": [], "may_raise": [], "assumed_clauses": [], "assume_calls": [], "callee_clause_selection": []}
     for f in contract_files:
         try:
             tree = ast.parse(open(f).read())
@@ -402,8 +402,10 @@ def scan_assumptions(contract_files: list[str]) -> dict:
                 if flags.get("may_raise"):
                     out["may_raise"].append(f"{target}: {flags['may_raise']} ({base})")
                 for x in ast.walk(st):
-                    if isinstance(x, ast.Constant) and isinstance(x.value, str) and x.value.startswith("A_"):
+                    if isinstance(x, ast.Constant) and isinstance(x.value, str) and x.value.startswith(("A_", "D_")):
                         out["assumed_clauses"].append(f"{target}/{x.value} ({base})")
+                if flags.get("callee_clauses"):
+                    out.setdefault("callee_clause_selection", []).append(f"{target}: {flags['callee_clauses']} ({base})")
             elif isinstance(st, ast.FunctionDef):
                 n = sum(1 for x in ast.walk(st) if isinstance(x, ast.Call) and getattr(x.func, "id", "") == "assume")
                 if n:
